@@ -1,4 +1,5 @@
 import FastorModel.Proofs.LUReconstruct
+import FastorModel.Proofs.LUInv
 import Mathlib.Data.Rat.Defs
 import Mathlib.Algebra.Order.Field.Rat
 /-
@@ -189,6 +190,17 @@ theorem reconstruct_matrix_encoding (isOne : K → Bool) (h1 : isOne 1 = true) (
   apply List.foldl_ext
   intro M i hi
   rw [findOne_pivotMat isOne h1 h0 n perm hlt i (List.mem_range.1 hi)]
+
+/-- the triangular inverses that `fmodel` executes ARE inverses: `InvSpec` is not vacuous, and the model run in the
+correspondence is an instance of the model the theorems speak about -/
+theorem exec_ops_spec : InvSpec (execOps : InvOps K) := execOps_spec
+
+/-- `lu_correct` for the executed model (no hypothesis on the inverses left) -/
+theorem lu_correct_exec (gt : K → K → Bool) (s : Strategy) (n : Nat) (A : Mat K)
+    (hdef : LUDefined (execOps : InvOps K) gt s n A) (i j : Nat) (hi : i < n) (hj : j < n) :
+    ∑ m ∈ range n, (luPublicV execOps gt s n A).L.get i m * (luPublicV execOps gt s n A).U.get m j =
+      A.get ((luPublicV execOps gt s n A).perm.getD i 0) j :=
+  (lu_correct execOps execOps_spec gt s n A hdef).2.2.2.1 i j hi hj
 
 /-! ### non-vacuity: concrete matrices on which the strategies are defined -/
 /-- a 9×9 tridiagonal rational matrix (the smallest size of the recursive class) -/
